@@ -22,7 +22,8 @@ RULE = (
     "only), stored log_likelihood/log_prior/log_q of row i must equal L, pi, q at x[i]. Proposal seam: every row of the "
     "initial population must be a row the proposal drew, paired with the log_q drawn with it; size == request; all priors "
     "finite. evaluations = processes; non-trivial = populations were judged; distinct_nontrivial counts distinct (sampler, "
-    "namespace, dtype, preconditioning, checkpoint mode, retry-loop-ran, resumed) tuples."
+    "namespace, dtype, preconditioning, checkpoint mode, retry-loop-ran, resumed) tuples. "
+    "A few cases run BlackJAXSMC (stand-in random-walk blackjax, jax-traceable model): returned samples and every stored population are recomputed."
 )
 ASSUMPTIONS = ["stub kernels/proposal/model; blackjax sampler not run"]
 COMPONENTS = runs.COMPONENTS
@@ -35,12 +36,18 @@ def gen_cases(seed, tier):
     for i in range(n):
         ss = stream_seeds(seed, ID, i)
         out.append({"run_index": i, "scenario_seed": ss["scenario"], "fault_seed": ss["faults"], "tier": tier})
-    return out
+    from . import c05_blackjax
+
+    return c05_blackjax.cases(ID, seed, tier) + out
 
 
 def scenario_of(case):
     if "scenario" in case:
         return case["scenario"]
+    if case.get("kind") == "blackjax":
+        from . import c05_blackjax
+
+        return c05_blackjax.scenario(case)
     scn = runs.draw_any(case["scenario_seed"], case["tier"])
     rng = rng_from(case["fault_seed"])
     # half of the cases: a proposal much wider than the prior support -> retry loop
@@ -100,6 +107,10 @@ def _initial_population_checks(scn, workdir, where):
 
 
 def run_case(case, workdir):
+    if case.get("kind") == "blackjax":
+        from . import c05_blackjax
+
+        return c05_blackjax.judge(case, workdir, scenario_of(case), want=('c10',))
     scn = scenario_of(case)
     where = O.scn_where(scn)
     V = []
